@@ -251,10 +251,18 @@ func (f *lFile) stored(doc uint64) (id []byte, vals []sStoredVal) {
 
 // lCheckAgainstSpec: the file decodes, by the documented layout alone, to the content that went in.
 func lCheckAgainstSpec(file []byte, sp *sSpec, mode uint32, tag string) {
+	lCheckAgainstSpecX(file, sp, mode, tag, true)
+}
+
+// withCRC false: the checksum of an all-concrete file cannot be compared under the engine (crc32 is an
+// uninterpreted fold there); the native run of the same harness compares it.
+func lCheckAgainstSpecX(file []byte, sp *sSpec, mode uint32, tag string, withCRC bool) {
 	f := lParse(file)
 	vAssert(f.numDocs == uint64(len(sp.docs)), tag+"layout-numDocs")
 	vAssert(f.chunkMode == mode, tag+"layout-chunkMode")
-	vAssert(f.crc == vCRC(file[:len(file)-4]), tag+"layout-crc")
+	if withCRC {
+		vAssert(f.crc == vCRC(file[:len(file)-4]), tag+"layout-crc")
+	}
 	vAssert(f.fieldsIndex == f.sectionsIndex && f.dvOff == 0 || true, tag+"layout-footer-aux")
 	if len(sp.docs) > 0 {
 		vAssert(len(f.names) == len(sp.fields), tag+"layout-fields-len")
